@@ -61,6 +61,7 @@ func rtBuild(c Sx, caching bool) *rtRouter {
 	customNF, customNA, lateOpt := false, false, false
 	groupPrefix, inGroup := "", false
 	var gvars [][2]string
+	direct := false
 	for _, o := range xs[1].Lst() {
 		switch o.Head() {
 		case "strict":
@@ -96,6 +97,8 @@ func rtBuild(c Sx, caching bool) *rtRouter {
 			lateOpt = true
 		case "group":
 			groupPrefix, inGroup = o.List[1].Str(), true
+		case "direct": // the option functions are applied by calling them with the (still empty) router
+			direct = true
 		case "gvar":
 			gvars = append(gvars, [2]string{o.List[1].Str(), o.List[2].Str()})
 			if len(o.List) > 3 {
@@ -114,13 +117,25 @@ func rtBuild(c Sx, caching bool) *rtRouter {
 			panic("rt: bad option " + o.String())
 		}
 	}
-	rr := &rtRouter{r: rux.New(opts...), byName: map[string]int{}}
+	rr := &rtRouter{byName: map[string]int{}}
+	if direct {
+		rr.r = rux.New()
+		for _, o := range opts {
+			o(rr.r)
+		}
+	} else {
+		rr.r = rux.New(opts...)
+	}
 	// global path variables defined by the application after the router exists and before its routes are added
 	// (the table is package-level state: rtExec removes the names again)
 	for _, gv := range gvars {
 		rux.SetGlobalVar(gv[0], gv[1])
 	}
-	if len(later) > 0 {
+	if len(later) > 0 && direct {
+		for _, o := range later {
+			o(rr.r)
+		}
+	} else if len(later) > 0 {
 		rr.r.WithOptions(later...)
 	}
 	if caching {
